@@ -62,6 +62,14 @@ func aArr(elems ...argVal) argVal {
 	return argVal{Text: "[" + strings.Join(parts, ", ") + "]", Kind: "arr", Elems: elems}
 }
 
+// mapName: the data name behind a map argument (possibly handed through an echo call).
+func mapName(a argVal) string {
+	if strings.Contains(a.Text, "mn") {
+		return "mn"
+	}
+	return "m"
+}
+
 // viaCall spells the argument as the result of a nested host call that hands it through.
 func viaCall(a argVal, two bool) argVal {
 	if two {
@@ -85,6 +93,7 @@ func c11Data(fn *spec.Fn, rec *spec.Recorder) map[string]interface{} {
 	return map[string]interface{}{
 		fn.Name: fn.Build(rec),
 		"m":     map[string]interface{}{"a": "x", "b": "y"},
+		"mn":    map[string]interface{}{"a": "x", "n": nil, "z": nil}, // a map with null entries: they arrive as nil entries, not as missing keys
 		"t":     c11Time,
 		"rec":   (&spec.Fn{Name: "rec", Params: []string{"int"}, Ret: "arg0"}).Build(rec),
 		// echo functions: arguments that are themselves calls with arguments (nested call frames)
@@ -117,6 +126,12 @@ func convOutcome(a argVal, p string) string {
 	if strings.HasPrefix(p, "map[string]") {
 		switch a.Kind {
 		case "map":
+			if mapName(a) == "mn" { // null entries: nil for interface elements; what a null becomes as a string or a number element is left open
+				if p == "map[string]any" {
+					return "ok"
+				}
+				return "either"
+			}
 			if p == "map[string]any" || p == "map[string]string" {
 				return "ok"
 			}
@@ -194,6 +209,15 @@ func matchArg(got interface{}, a argVal, p string, data map[string]interface{}) 
 		}
 		return true
 	}
+	if strings.HasPrefix(p, "map[string]") && mapName(a) == "mn" { // only asserted for map[string]any (see convOutcome)
+		gm, ok := got.(map[string]interface{})
+		if !ok || len(gm) != 3 {
+			return false
+		}
+		n, hasN := gm["n"]
+		z, hasZ := gm["z"]
+		return fmt.Sprint(gm["a"]) == "x" && hasN && n == nil && hasZ && z == nil
+	}
 	if strings.HasPrefix(p, "map[string]") {
 		gv := reflect.ValueOf(got)
 		if !gv.IsValid() || gv.Type() != spec.TypeOf(p) || gv.Len() != 2 {
@@ -267,7 +291,7 @@ func matchArg(got interface{}, a argVal, p string, data map[string]interface{}) 
 		}
 		return true
 	case "map": // p == any: the very same object
-		return reflect.ValueOf(got).IsValid() && reflect.ValueOf(got).Kind() == reflect.Map && reflect.ValueOf(got).Pointer() == reflect.ValueOf(data["m"]).Pointer()
+		return reflect.ValueOf(got).IsValid() && reflect.ValueOf(got).Kind() == reflect.Map && reflect.ValueOf(got).Pointer() == reflect.ValueOf(data[mapName(a)]).Pointer()
 	case "time":
 		tt, ok := got.(time.Time)
 		return ok && tt == c11Time
@@ -488,7 +512,7 @@ var c11Args = []argVal{
 	aNum("3.0", "3"), aNum("30e-1", "3"), aNum("(1.5 * 2)", "3"), aNum("(-2.70)", "-27/10"), aNum("1e2", "100"), aNum("(0 * -1)", "0"),
 	aStr("s"), aStr(""), aStr("12"), aStr("2024-01-02T03:04:05Z"), aStr("1e3"), aStr("null"),
 	aArr(), aArr(aNum("1", "1"), aNum("2", "2")), aArr(aStr("a"), aStr("b")), aArr(aNum("1", "1"), aStr("a")), aArr(aArr(aNum("1", "1"))), aArr(aNum("2.7", "27/10"), aNum("(-2.7)", "-27/10")), aArr(aNull),
-	aMap, aTime,
+	aMap, aTime, {Text: "mn", Kind: "map"},
 	viaCall(aNum("3", "3"), false), viaCall(aStr("s"), true), viaCall(aArr(aNum("1", "1"), aNum("2", "2")), true), viaCall(aNull, false),
 }
 
